@@ -18,7 +18,8 @@ func init() {
 }
 
 func runC25(c *Ctx) {
-	payloads := []int64{0, 1, 2, 3, 4, 5, 6, 7, 8, 9, 10, 11, 12, 13, 14, 15, 16, 17, 18, 19, 20, 21, 22, 23, 24, 25, 26, 27, 28, 29, 30, 31, 32, 33, 39, 40, 255, 256, 1000, 32768}
+	c25RC4Discard(c)
+	payloads :=[]int64{0, 1, 2, 3, 4, 5, 6, 7, 8, 9, 10, 11, 12, 13, 14, 15, 16, 17, 18, 19, 20, 21, 22, 23, 24, 25, 26, 27, 28, 29, 30, 31, 32, 33, 39, 40, 255, 256, 1000, 32768}
 	// ---------- stream writer
 	if f := c.fn("ssh", "(*streamPacketCipher).writeCipherPacket"); f != nil {
 		pkt := f.Params[4]
